@@ -453,13 +453,24 @@ func (c12) Rule() string {
 		"Non-trivial: every pair; distinct by (base scheme and depth, reference form, segment classes)."
 }
 
-var c12Segs = []string{"a", "b.c", ".", "..", "p%20q", "é", "s t", "v1.0", "x%25y", "%2541"}
+var c12SegsAll = []string{"a", "b.c", ".", "..", "p%20q", "é", "s t", "v1.0", "x%25y", "%2541", "m%2Fn"}
+
+// c12Alphabet is the segment alphabet; while known finding F20 is open the segment with an escaped
+// slash is left out (generator exclusion "escaped-slash-in-ref-path"; the pinned replay keeps it).
+func c12Alphabet() []string {
+	if excluded["escaped-slash-in-ref-path"] {
+		return c12SegsAll[:len(c12SegsAll)-1]
+	}
+	return c12SegsAll
+}
+
 var c12Bases = []string{
 	"file:///base.json", "file:///d1/base.json", "file:///d1/d2/base.json", "file:///d1/d2/d3/base.json",
 	"http://h.test/base.json", "http://h.test/x/base.json", "https://s.test/x/y/base.json", "http://h.test:8080/x/y/z/base.json",
 }
 
 func c12Pair(r *sim.RNG, idx int) [2]string {
+	c12Segs := c12Alphabet()
 	nseg := len(c12Segs)
 	total := nseg + nseg*nseg + nseg*nseg*nseg
 	var segs []string
